@@ -27,7 +27,9 @@ ADIM == [i \in 1..NA |-> MRAtoms[i].dim]
 AIdx(n) == CHOOSE i \in 1..NA : MRAtoms[i].n = n
 \* exponent vector from a set of <<atom, n, d>>
 EV(S) == [i \in 1..NA |-> IF \E t \in S : t[1] = MRAtoms[i].n THEN (LET tt == CHOOSE t2 \in S : t2[1] = MRAtoms[i].n IN Norm(tt[2], tt[3])) ELSE RZero]
-Lf(s, reg, S) == [s |-> s, reg |-> reg, ex |-> EV(S)]
+\* a leaf = a unit string: exponent vector + log2 of a leading numeric coefficient ("8*la" has clg 3)
+LfC(s, reg, S, c) == [s |-> s, reg |-> reg, ex |-> EV(S), clg |-> R(c)]
+Lf(s, reg, S) == LfC(s, reg, S, 0)
 Atom(n) == Lf(n, 1, {<<n, 1, 1>>})
 MRLeaves == <<
   Atom("la"), Atom("lb"), Atom("lc"), Atom("ta"), Atom("tb"), Atom("ma"), Atom("mb"), Atom("na"), Atom("nq"),
@@ -40,7 +42,14 @@ MRLeaves == <<
   Lf("lb", 2, {<<"lb", 1, 1>>}),
   Lf("xb", 2, {<<"xb", 1, 1>>}),
   Lf("la", 3, {<<"la", 1, 1>>}),
-  Lf("fo*la", 3, {<<"fo", 1, 1>>, <<"la", 1, 1>>}) >>
+  Lf("fo*la", 3, {<<"fo", 1, 1>>, <<"la", 1, 1>>}),
+  \* strings that carry a numeric coefficient (also a bare number)
+  LfC("8*la", 1, {<<"la", 1, 1>>}, 3),
+  LfC("0.25*ta", 1, {<<"ta", 1, 1>>}, -2),
+  LfC("4*la/ta", 1, {<<"la", 1, 1>>, <<"ta", -1, 1>>}, 2),
+  LfC("16", 1, {}, 4),
+  LfC("2*ma*lb", 1, {<<"ma", 1, 1>>, <<"lb", 1, 1>>}, 1) >>
+PlainLeaf(x) == RIsZero(MRLeaves[x].clg)
 NMR == Len(MRLeaves)
 
 (* ---- the registry as a state: table rows that registry edits change ---- *)
@@ -66,8 +75,8 @@ SingleAtom(ex) == Cardinality({i \in 1..NA : ~RIsZero(ex[i])}) = 1 /\ \E i \in 1
 \* Unit(string, registry) on table T: scale and dimension from the rows, the offset only for a bare symbol
 LeafRecT(l, T, reg) ==
   LET one == CHOOSE i \in 1..NA : l.ex[i] = ROne
-      off == IF SingleAtom(l.ex) THEN T[one].off ELSE RZero IN
-  Obsify(MkUnit(l.ex, RZero, Dot(l.ex, [i \in 1..NA |-> T[i].lg]), SingleAtom(l.ex) /\ T[one].neg,
+      off == IF SingleAtom(l.ex) /\ RIsZero(l.clg) THEN T[one].off ELSE RZero IN
+  Obsify(MkUnit(l.ex, l.clg, QAdd(l.clg, Dot(l.ex, [i \in 1..NA |-> T[i].lg])), SingleAtom(l.ex) /\ RIsZero(l.clg) /\ T[one].neg,
                 DotV(l.ex, [i \in 1..NA |-> T[i].dim]), off, reg, TRUE, TRUE))
 LeafRec(l) == LeafRecT(l, Table0, l.reg)
 OneRec(reg) == Obsify(MkUnit([i \in 1..NA |-> RZero], RZero, RZero, FALSE, VZero(ND), RZero, reg, TRUE, TRUE))
